@@ -9,6 +9,7 @@
   resulting work bound explicit.
 -/
 import Rsdns.Lemmas.Reader
+import Rsdns.Lemmas.ReaderSafe
 import Rsdns.Model.RecordSet
 
 set_option linter.unusedVariables false
@@ -44,10 +45,55 @@ theorem rdata_safe (t : RType) (msg : Bytes) (c : Cur) (h : Cur.OK msg c) (rdLen
 
 /-- the cursor-style reader, ANY call history with ANY markers: no undefined behaviour, i.e. no memory
     outside the supplied buffer is ever touched (panics are excluded under the documented call
-    order by `reader_safe` below) -/
+    order by `reader_safe` below; off the protocol they do occur: a data call with a foreign marker
+    trips a debug assertion) -/
 theorem reader_no_over_read (msg : Bytes) (r0 : Reader) (ops : List Op) (h0 : Reader.new msg = .ok r0) :
     ∀ o ∈ (Reader.run msg r0 ops).1, o.noUB :=
   (run_ok ops (RInv.new h0)).1
+
+/-- **the cursor-style reader never panics on a conforming history, whatever the bytes.**
+    For every byte string `msg` that `MessageReader::new` accepts and every call history that calls
+    `header()` first and once, makes each data call (`skip_record_data`, `record_data_bytes`,
+    `record_data::<D>` for any of the 17 types — also a type that is not the record's —, `opt_record`
+    for an OPT marker) with the marker the preceding record-header call returned, and is otherwise
+    arbitrary (questions and record headers in any order, `seek`s, counts, marker-based random access
+    with any marker): every call returns a value or an error.  No debug assertion fires, no checked
+    counter arithmetic overflows or underflows, no unchecked read leaves the buffer.
+    `Conforms` / `Permitted`: Rsdns/Lemmas/ReaderSafe.lean; `C09.Allowed` (the documented order) implies
+    `Permitted` (`Permitted.of_allowed`). -/
+theorem reader_safe (msg : Bytes) (r0 : Reader) (ops : List Op) (h0 : Reader.new msg = .ok r0)
+    (hC : Conforms msg (r0.header msg).2 none ops) :
+    (r0.header msg).1.safe ∧ ∀ o ∈ (Reader.run msg (r0.header msg).2 ops).1, o.safe := by
+  have hinv := RInv.new h0
+  have ht : r0.tr = Tracker.default := by
+    unfold Reader.new at h0
+    split at h0
+    · simp at h0
+    · simp only [Res.ok.injEq] at h0; rw [← h0]
+  have hh := header_rout hinv ht
+  refine ⟨hh.safe, ?_⟩
+  have hS : Sane msg (r0.header msg).2 none := by
+    cases hx : r0.header msg with
+    | mk res r1 =>
+      rw [hx] at hh
+      cases res with
+      | ok h => exact ⟨hh, fun m hm => by cases hm⟩
+      | err e => exact ⟨hh, fun m hm => by cases hm⟩
+      | panic p => exact hh.elim
+      | ub => exact hh.elim
+  exact run_sane ops _ none hS hC
+
+/-- non-vacuity: calls that are permitted in every state, on every message -/
+example (msg : Bytes) (r : Reader) (p : Option Marker) :
+    Conforms msg r p [.question .question, .skipQuestions, .recordHeader .marker, .seek 2, .recordsCount,
+      .recordHeader (.owned .heap), .questionsCount] := by
+  simp [Conforms, Permitted]
+
+/-- non-vacuity: a data call with the marker that the record-header call just returned is permitted -/
+example (msg : Bytes) (r : Reader) (p : Option Marker) (k : HKind) (n : HName) (m : Marker) (t : RType)
+    (h : (r.step msg (.recordHeader k)).1 = .ok (.hdr n m)) :
+    Conforms msg r p [.recordHeader k, .nameRefAt m, .data t m] := by
+  simp only [Conforms, h, C09.nextPend, Permitted, and_true, true_and]
 
 /-- messages longer than 65535 bytes are refused by the cursor-style reader, nothing else is -/
 theorem reader_new_total (msg : Bytes) :
